@@ -10,8 +10,9 @@ ID = "C04"
 LEVEL = "exploration"
 EXHAUSTIVE = True
 RULE = ("exhaustive: each of the 17 branch mnemonics x every byte distance d in -300..+300 (d measured from .+2) and sob x d in "
-        "-140..+6, each realised in up to fourteen shapes (label with filler, label+-k octal / decimal / hex, .+-k, .+-k inside .repeat, "
-        "numeric local label with and without colon, local label +- k (the label-fixup reading), and from an included / second linked file to an exported label); accepted iff d even and within -256..254 (sob: -126..0), both directions asserted; accepted words "
+        "-140..+6, each realised in up to seventeen shapes (label with filler, label+-k octal / decimal / hex, .+-k, .+-k inside .repeat, "
+        "numeric local label with and without colon, local label +- k (the label-fixup reading), a local label on the other side of a .repeat block or "
+        "of an included file with a local label of the same name, from the second inclusion of a file included twice, and from an included / second linked file to an exported label); accepted iff d even and within -256..254 (sob: -126..0), both directions asserted; accepted words "
         "are read by an independent decoder whose target must equal the source target. random: relative / relative-deferred operands "
         "in first or second position after 0 or 1 extension words, targets anywhere in 64 KiB (labels before/after with filler, "
         "label+-k, .+-k, local labels, bare addresses, wrap-around), link bases anywhere. placement: both parts also put the "
@@ -60,6 +61,32 @@ def branch_program(mn, d, shape, base=None):
         num = {"label-k": f"{abs(k):o}", "label-kdec": f"{abs(k)}.", "label-khex": f"0x{abs(k):x}"}[shape]
         sign = "+" if k >= 0 else "-"
         return f"{head}here:\n\t{mn} {reg}here{sign}{num}\n", 0, B
+    if shape == "include-twice":
+        # the same file included twice: the second copy's branch aims at the second copy's label
+        inner = branch_program(mn, d, "label", None)
+        if inner is None:
+            return None
+        text, off, addr = inner
+        size = (off + 2) if d <= -2 else (2 + d + 2)
+        pad = 4
+        main = f"{head}\t.blkb {pad:o}\n\t.include \"unit.mac\"\n\t.include \"unit.mac\"\n"
+        return {"main.mac": main, "unit.mac": text}, ["main.mac"], pad + size + off, B + pad + size + off
+    if shape in ("local-over-repeat", "local-over-include"):
+        # a numeric local label and its reference with a .repeat block / an included file (that has a local label of the same
+        # name) between them: both are in the same scope of the enclosing file
+        mid = "\t.repeat 2 { nop }\n" if shape == "local-over-repeat" else "\t.include \"own.mac\"\n"
+        if d <= -6:
+            filler = -d - 6
+            text = f"{head}anchor:\n7:\t.blkb {filler:o}\n{mid}\t{mn} {reg}7\n"
+            off = filler + 4
+        elif d >= 4:
+            text = f"{head}anchor:\t{mn} {reg}7\n{mid}\t.blkb {d - 4:o}\n7:\tnop\n"
+            off = 0
+        else:
+            return None
+        if shape == "local-over-include":
+            return {"main.mac": text, "own.mac": "7:\tnop\n\tbr 7\n"}, ["main.mac"], off, B + off
+        return text, off, B + off
     if shape in ("local-k", "local-kdec"):
         # 'br 1+k': the first number of a complex operand is read as a local label (with a label-fixup warning at the same place
         # where an out-of-reach error would be reported)
@@ -108,7 +135,7 @@ def branch_program(mn, d, shape, base=None):
     raise ValueError(shape)
 
 
-SHAPES = ["label", "local", "local-colon", "label-k", "label-kdec", "label-khex", "dot", "dot-dec", "dot-repeat", "glob-include", "glob-second", "inner-include", "local-k", "local-kdec"]
+SHAPES = ["label", "local", "local-colon", "label-k", "label-kdec", "label-khex", "dot", "dot-dec", "dot-repeat", "glob-include", "glob-second", "inner-include", "local-k", "local-kdec", "include-twice", "local-over-repeat", "local-over-include"]
 
 
 def check_branch(mn, d, shape, base=None):
@@ -395,7 +422,7 @@ def run_shard(spec, ctx):
         mn = spec["mn"]
         for d in range(spec["lo"], spec["hi"] + 1):
             for si, shape in enumerate(SHAPES):
-                base = [None, 0o40000, None, 0, None, 0o157000, None, 0o2000, 0o1000, 0o3000, None, 0o60000, None, 0o4000][si] if d % 7 == 0 else None
+                base = [None, 0o40000, None, 0, None, 0o157000, None, 0o2000, 0o1000, 0o3000, None, 0o60000, None, 0o4000, None, 0o2000, None][si] if d % 7 == 0 else None
                 text, fails = check_branch(mn, d, shape, base)
                 if text is None:
                     continue
